@@ -18,7 +18,10 @@ def segbytes(n, start):
 def config_module(mem, data, table, elems, start, two_instances=False, utf8_names=False):
     m = Module(); imports = []; externs = []; cases = []; inputsets = []
     # names of the imported memory / table / globals: plain ASCII, or with non-ASCII UTF-8 characters (the resolver is asked for these very bytes)
-    EN, GOFF, GMUT, MEM, TAB = ('\u00e9nv', 'g\u20acff', 'gm\u00fct', 'm\u00e9m', 't\u00e4b\u4e2d') if utf8_names else ('env', 'goff', 'gmut', 'mem', 'tab')
+    EN, GOFF, GMUT, MEM, TAB = ('\u00e9nv', 'g\u20acff', 'gm\u00fct', 'm\u00e9m', 't\u00e4b\u4e2d') if utf8_names is True else ('env', 'goff', 'gmut', 'mem', 'tab')
+    if utf8_names == 'control':
+        # control characters directly in front of hexadecimal digits and of octal digits, quotes, backslashes, a question mark pair (trigraph)
+        EN, GOFF, GMUT, MEM, TAB = 'e\x01nv', 'g\x010ff', 'gm\x1f7"\\ut', 'm\x7fe??/m', 't\x07ab\x02c9'
 
     def imp(mod, nm, p, r):
         m.import_func(mod, nm, p, '' if r == 'v' else r); imports.append((mod, nm, p, r)); return len(imports) - 1
@@ -218,6 +221,9 @@ def main(tier):
     for data, table, elems, start in (('one', 'imported', 2, 'defined'), ('globaloff', 'defined', 1, 'none')):
         b = config_module('imported', data, table, elems, start, utf8_names=True)
         b.desc += ' (non-ASCII import names)'
+        jobs.append(('config', b, {'cc': 'gcc', 'cflags': ('-O1',)}))
+        b = config_module('imported', data, table, elems, start, utf8_names='control')
+        b.desc += ' (import names with control characters in front of hex / octal digits, quotes, backslashes)'
         jobs.append(('config', b, {'cc': 'gcc', 'cflags': ('-O1',)}))
     jobs.append(('config', names_module(), {'cc': 'gcc', 'cflags': ('-O1',)}))
     jobs.append(('config', repeated_import_module(), {'cc': 'gcc', 'cflags': ('-O1',)}))
